@@ -185,7 +185,17 @@ pub fn run(thorough: bool) -> Vec<Part> {
     bad_line.extend_from_slice(b"\r\n\r\n");
     let mut bad_line2 = b"GET / HTTP/1.1\r\n".to_vec();
     bad_line2.extend(std::iter::repeat(0xf0u8).take(1500));
+    let mut tiny1 = b"GET / HTTP/1.1\r\n".to_vec();
+    tiny1.extend_from_slice(&b":\r\n".repeat(330));
+    tiny1.extend_from_slice(b"\r\n");
+    let mut tiny2 = b"GET / HTTP/1.1\r\n".to_vec();
+    tiny2.extend_from_slice(&b":\r\n".repeat(8));
+    tiny2.extend_from_slice(&b"a:\r\n".repeat(250));
+    tiny2.extend_from_slice(b"\r\n");
     let big: Vec<(&str, Vec<u8>, usize)> = vec![
+        ("330 three-byte header lines", tiny1, 51200),
+        ("8 three-byte + 250 four-byte header lines", tiny2, 51200),
+        ("Content-Length 3000000000 under an unlimited payload limit", b"PUT /b HTTP/1.1\r\nContent-Length: 3000000000\r\n\r\nxyz".to_vec(), usize::MAX),
         ("header line longer than the buffer with invalid UTF-8 near offset 1023", bad_line, 51200),
         ("header line of 1500 bytes 0xF0", bad_line2, 51200),
         ("60 KiB without CRLF", vec![b'x'; 60 * 1024], 51200),
